@@ -118,3 +118,30 @@ Theorem C12_context_preserved : forall D tst F st cur o st' cur',
   select1 D tst F st cur = R o st' cur' -> cur' = cur /\ config_of st' = config_of st.
 Proof. exact context_preserved. Qed.
 Print Assumptions C12_context_preserved.
+
+(* ---- the extended cursor-level model (Model1/Iter2.v, Proofs/IterRefine2.v): all
+   fourteen node-set query types — the eight above plus following / preceding (both
+   Sibling values), ancestor (both Self values, with its de-duplication table), group,
+   union and merge ---- *)
+From XP.Model1 Require Import Iter2.
+From XP.Proofs Require Import IterRefine2.
+
+Theorem C12_cursor_level_refines_list_level_all : forall D has_ns hc rm rn rr q Q c l F n,
+  corr2 D has_ns hc rm rn rr q Q -> sel D has_ns hc rm rn rr Q c = Val l ->
+  need2 D hc (match_test D has_ns) q c <= F -> List.length l < n ->
+  drain_items2 D hc (match_test D has_ns) F n (fresh2 q) c = l /\
+  drain2 D hc (match_test D has_ns) F n (fresh2 q) c = nodes_of l /\
+  iterate_items2 D hc (match_test D has_ns) F n (fresh2 q) c = l.
+Proof. exact m1_refines_list2. Qed.
+Print Assumptions C12_cursor_level_refines_list_level_all.
+
+Theorem C12_exhaustion_stable_all : forall D hcode tst F st cur st' cur',
+  1 <= F -> select2 D hcode tst F st cur = R None st' cur' ->
+  forall cur2, exists st'', select2 D hcode tst F st' cur2 = R None st'' cur2.
+Proof. exact exhausted_stable2. Qed.
+Print Assumptions C12_exhaustion_stable_all.
+
+Theorem C12_context_preserved_all : forall D hcode tst F st cur o st' cur',
+  select2 D hcode tst F st cur = R o st' cur' -> cur' = cur /\ config_of2 st' = config_of2 st.
+Proof. exact context_preserved2. Qed.
+Print Assumptions C12_context_preserved_all.
